@@ -44,14 +44,14 @@ theorem define_rejects_hashhash {st st' : St} (h : define st = .ok st') :
   exact ⟨m, h1, h3.noHashHash⟩
 
 /-- 6.10.3p5: `__VA_ARGS__` in the replacement list of a macro that is not variadic (the first
-token included, since `360707e`): rejected. -/
+token included, since `40f4bc5`): rejected. -/
 theorem define_rejects_bad_va_args {st st' : St} (h : define st = .ok st') :
     ∃ m, macroget st'.macros (st.tok.lit.getD []) = some m ∧
       (macrovarargs m.func m.params = false → ∀ t ∈ m.body, ¬ (t.kind = .TIDENT ∧ t.lit = some vaName)) := by
   obtain ⟨m, h1, _, h3, _⟩ := define_wf h
   exact ⟨m, h1, h3.vaOnlyVariadic⟩
 
-/-- 6.10.3p6: two parameters of the same name (since `5e1cf9d`): rejected. -/
+/-- 6.10.3p6: two parameters of the same name (since `e1e687a`): rejected. -/
 theorem define_rejects_duplicate_parameter {st st' : St} (h : define st = .ok st') :
     ∃ m, macroget st'.macros (st.tok.lit.getD []) = some m ∧
       ((m.params.filter (fun p => !p.fvar)).map (·.name)).Nodup := by
@@ -256,7 +256,7 @@ example : (run 20 (St.init [ident b!"A", NL, ⟨.TEOF, none, false, false⟩] fa
 
 /-! ## 5. Argument count (6.10.3p4) -/
 
-/-- **A surplus argument is rejected, an empty one included** (since `bf7cc8d`): when the comma that
+/-- **A surplus argument is rejected, an empty one included** (since `09a3a09`): when the comma that
 ends the argument for the last parameter is met at invocation level outside parentheses, the
 invocation is diagnosed "too many arguments". -/
 theorem too_many_args_rejected (rec : Call → St → Res) (e : EF) (st : St)
